@@ -220,9 +220,11 @@ def classify(ur):
         fns = diag_function(spans, d)
         ob = None
         for s in d.get('spans', []):
-            nm = clause_name_at(lines, s['line_start'])
-            if nm:
-                ob = nm
+            for ln in range(s['line_start'], s.get('line_end', s['line_start']) + 1):
+                nm = clause_name_at(lines, ln)
+                if nm:
+                    ob = nm
+                    break
         # the function being verified is the one containing the non-contract span
         # (call-site / body); for postconditions both spans are in the same fn.
         body_fn = None
@@ -285,8 +287,15 @@ def scan_assumptions(text):
     found = []
     spans = None
     lines = text.split('\n')
+    skip = 0
     for i, l in enumerate(lines):
         code = l
+        if re.match(r'// ---- unit \S+ \(imported contracts\) ----', l.strip()):
+            skip += 1
+        elif re.match(r'// ---- end unit \S+ ----', l.strip()):
+            skip -= 1
+        if skip > 0:
+            continue
         if l.strip().startswith('//') and 'AXIOM' not in l:
             continue
         for kind, pat in ASSUME_PATTERNS:
